@@ -9,7 +9,10 @@
 
    The model is tied to the current source on every run by tools/vf/props/C16.py (vm_compute replay of
    the real Tree classes and of VineCopula.fit with the recorded tau matrices / argsort / set orders, and
-   the proved-sound validator [valid_vine] run on the implementation's own output).
+   the proved-sound validator [valid_vine] run on the implementation's own output).  In addition the small pure
+   "edge kernel" of tree.py (_check_constraint, _identify_eds_ing, is_adjacent, sort_edge, get_child_edge,
+   _get_constraints) is GENERATED from the Python AST on every run (tools/vf/vinegen.py -> Gen_vinekernel.v, denotations
+   in coq/Lib/PySet.v) and PROVED equal to the hand-written definitions for all inputs ([C16_bridge_*] at the end).
 
    Regular vines are proved at EVERY level and truncation ([C16_regular_vine_all_levels]: the construction
    always returns a RegularVine, the escape branch is never taken [C16_regular_escape_never],
@@ -24,8 +27,9 @@ From Coq Require Import List Arith ZArith QArith Lia Bool Permutation.
 From Cop Require Import Lib.FinGraph Model.Vine Model.BivCtl Spec.VineDefs Spec.VineSets
      Spec.VineSort Spec.VineCenter Spec.VineDirect Spec.VineRegular
      Spec.VinePySort Spec.VineValid Spec.VineRegular2 Spec.VinePairs Spec.VineRegular3 Spec.VineProofs
-     Spec.VineMST Spec.VineRegular4 Spec.VineRegular5 Spec.VineRegular6.
+     Spec.VineMST Spec.VineRegular4 Spec.VineRegular5 Spec.VineRegular6 Lib.PySet.
 From CopRun Require Import Gen_bivq.
+From CopRun Require Import Gen_vinekernel.
 Import ListNotations.
 Open Scope nat_scope.
 
@@ -528,6 +532,98 @@ Proof.
   split; [apply good_sort_id; lia|].
   repeat split; vm_compute; reflexivity.
 Qed.
+
+(* ================= the edge kernel GENERATED from the AST of tree.py equals the hand-written model =================
+   Gen_vinekernel.v is produced on every run by tools/vf/vinegen.py from the current source of
+   Tree._check_constraint, Edge._identify_eds_ing, Edge.is_adjacent, Edge.sort_edge, Edge.get_child_edge,
+   Tree._get_constraints (and Edge.get_conditional_uni, bridged in C17.v); the Python operations are denoted by
+   coq/Lib/PySet.v.  Each theorem holds for ALL inputs (edges with arbitrary, not necessarily canonical, D lists). *)
+Theorem C16_bridge_check_constraint :
+  forall (level : nat) (e1 e2 : edge),
+  gen_check_constraint level e1 e2 = check_constraint level e1 e2.
+Proof.
+  intros level e1 e2. unfold gen_check_constraint, check_constraint. cbv zeta.
+  match goal with
+  | |- (pyset_len ?s =? _) = _ =>
+      replace (pyset_len s) with (length (set_union (U e1) (U e2)))
+  end.
+  - reflexivity.
+  - symmetry. apply pyset_len_eq; [apply incr_set_union|].
+    intros v. unfold U. autorewrite with pyset. simpl. tauto.
+Qed.
+Print Assumptions C16_bridge_check_constraint.
+
+(* None = the ValueError of `left, right = sorted(A ^ B)` when |A ^ B| <> 2 *)
+Theorem C16_bridge_identify_eds_ing :
+  forall a b : edge, gen_identify_eds_ing a b = identify_eds_ing a b.
+Proof.
+  intros a b. unfold gen_identify_eds_ing, identify_eds_ing. cbv zeta.
+  match goal with
+  | |- match pyset_sorted ?s with _ => _ end = _ =>
+      replace (pyset_sorted s) with (set_symdiff (U a) (U b))
+  end.
+  2:{ symmetry. apply pyset_sorted_eq; [apply incr_set_symdiff|].
+      intros v. unfold U. autorewrite with pyset. simpl. tauto. }
+  match goal with
+  | |- context [pyset_and ?x ?y] =>
+      replace (pyset_and x y) with (set_inter (U a) (U b))
+  end.
+  2:{ symmetry. apply pyset_eq; [apply incr_pyset_and | apply incr_set_inter |].
+      intros v. unfold U. autorewrite with pyset. simpl. tauto. }
+  destruct (set_symdiff (U a) (U b)) as [|l [|r [|x t]]]; reflexivity.
+Qed.
+Print Assumptions C16_bridge_identify_eds_ing.
+
+Example C16_bridge_identify_nonvacuous :
+  gen_identify_eds_ing (mkEdge 0 0 2 [] None) (mkEdge 1 0 1 [] None) = Some (1, 2, [0]) /\
+  gen_identify_eds_ing (mkEdge 0 0 2 [] None) (mkEdge 1 1 3 [] None) = None /\
+  gen_identify_eds_ing (mkEdge 0 0 2 [] None) (mkEdge 1 0 2 [] None) = None /\
+  gen_identify_eds_ing (mkEdge 0 1 3 [2; 0; 2] None) (mkEdge 1 0 4 [3; 2] None) = Some (1, 4, [0; 2; 3]).
+Proof. vm_compute. repeat split; reflexivity. Qed.
+
+Theorem C16_bridge_is_adjacent :
+  forall a b : edge, gen_is_adjacent a b = is_adjacent a b.
+Proof.
+  intros a b. unfold gen_is_adjacent, is_adjacent.
+  apply Bool.eq_true_iff_eq. rewrite !orb_true_iff, !Nat.eqb_eq. lia.
+Qed.
+Print Assumptions C16_bridge_is_adjacent.
+
+(* Edge.sort_edge: the generated key under Python's tuple order is edge_key_le, and the stable sort by it is sort_edge *)
+Theorem C16_bridge_edge_key :
+  forall a b : edge, pytuple2_le (gen_edge_key a) (gen_edge_key b) = edge_key_le a b.
+Proof. intros a b. reflexivity. Qed.
+Print Assumptions C16_bridge_edge_key.
+
+Theorem C16_bridge_sort_edge :
+  forall l : list edge, gen_sort_edge l = sort_edge l.
+Proof.
+  intros l. unfold gen_sort_edge, py_sorted_key, sort_edge, sort_edge_by.
+  apply isort_by_ext. intros x y. apply C16_bridge_edge_key.
+Qed.
+Print Assumptions C16_bridge_sort_edge.
+
+(* a parent = (position in the previous tree's edge list, edge) *)
+Theorem C16_bridge_get_child_edge :
+  forall (idx : nat) (lp rp : nat * edge),
+  gen_get_child_edge idx lp rp = get_child_edge idx lp rp.
+Proof.
+  intros idx lp rp. unfold gen_get_child_edge, get_child_edge.
+  rewrite C16_bridge_identify_eds_ing.
+  destruct (identify_eds_ing (snd lp) (snd rp)) as [[[l r] d]|]; reflexivity.
+Qed.
+Print Assumptions C16_bridge_get_child_edge.
+
+(* the double loop with `neighbors.append` is the map/filter of the model *)
+Theorem C16_bridge_get_constraints :
+  forall edges : list edge, gen_get_constraints edges = get_constraints edges.
+Proof.
+  intros edges. unfold gen_get_constraints, get_constraints.
+  rewrite py_double_loop_append. fold (py_enumerate edges).
+  apply map_ext. intros ek. f_equal. apply filter_ext. intros ie.
+  rewrite C16_bridge_is_adjacent, (Nat.eqb_sym (fst ie) (fst ek)). reflexivity.
+Qed.
+Print Assumptions C16_bridge_get_constraints.
 
 Print Assumptions C16_center_vine_ok.
 Print Assumptions C16_direct_vine_ok.
